@@ -106,6 +106,8 @@ class World:
             r = p(name, cx)
             if r is not None:
                 return r
+        if name in ("int", "str", "float", "bool", "list", "dict", "tuple", "set", "object", "bytes"):
+            return ClsV(name)
         if name in ("True", "False"):
             return z3.BoolVal(name == "True")
         return None
@@ -461,7 +463,14 @@ def _b_cast_identity(ex, st, args, kwargs, node, spec):
     return args[0]
 
 
+def _b_defaultdict(ex, st, args, kwargs, node, spec):
+    if args and isinstance(args[0], ClsV) and args[0].name == "int":
+        return MapV(z3.K(I, z3.IntVal(0)))
+    raise Unsupported("defaultdict of non-int")
+
+
 BUILTINS = {
+    "defaultdict": _b_defaultdict, "collections.defaultdict": _b_defaultdict,
     "len": _b_len, "min": _minmax(True), "max": _minmax(False), "abs": _b_abs, "int": _b_int, "float": _b_float,
     "bool": _b_bool, "isinstance": _b_isinstance, "ord": _b_ord, "chr": _b_chr, "str": _b_str, "list": _b_list,
     "tuple": _b_tuple, "sum": _b_sum, "any": _b_any, "all": _b_all, "print": _b_noop,
@@ -476,6 +485,7 @@ BUILTINS = {
 # Character-level functions are uninterpreted symbols constrained by the ASCII facts the
 # proofs need (declared once here; listed as assumed str semantics).
 
+COUNT = z3.Function("COUNT", AII, I, I, I)
 UPPER = z3.Function("chr_upper", I, I)
 LOWER = z3.Function("chr_lower", I, I)
 
@@ -488,11 +498,23 @@ def char_axioms():
     ]
 
 
+def map_str(cx, f, s):
+    """Pointwise image of a string under a character function: a named array constant with its
+    defining axiom (one per (function, array) pair in use)."""
+    cache = cx.__dict__.setdefault("_map_cache", {})
+    key = (f.name(), s.arr.get_id())
+    if key not in cache:
+        arr = fresh(f"{f.name()}.img", AII)
+        k = z3.Int("k!map")
+        cx.axioms.append(z3.ForAll([k], arr[k] == f(s.arr[k]), patterns=[arr[k]]))
+        cache[key] = arr
+    return StrV(cache[key], s.n)
+
+
 def _map_chars(f):
     def m(ex, st, s, args, kwargs, node, spec):
-        k = z3.Int("k!map")
         ex.cx.need_char_axioms = True
-        return StrV(z3.Lambda([k], f(s.arr[k])), s.n)
+        return map_str(ex.cx, f, s)
     return m
 
 
